@@ -508,12 +508,18 @@ where
                 RxcWindowResponse::Rx(sz, q, timeout_fut) => {
                     debug!("RXC window received {} bytes.", sz);
                     self.radio_buffer.set_pos(sz);
-                    let mac_response = self.mac.handle_rxc::<N, D>(
-                        &mut self.radio_buffer,
-                        &mut self.downlink,
-                        q.snr(),
-                        &rx_config.rf,
-                    )?;
+                    let mac_response = self
+                        .mac
+                        .handle_rxc::<N, D>(
+                            &mut self.radio_buffer,
+                            &mut self.downlink,
+                            q.snr(),
+                            &rx_config.rf,
+                        )
+                        // Without a session (the windows of a join attempt) nothing heard in RXC
+                        // can be for this device: it is ignored like any other stray frame
+                        // instead of aborting the attempt.
+                        .unwrap_or(mac::Response::NoUpdate);
                     match Self::handle_mac_response(
                         &mut self.radio_buffer,
                         &mut self.mac,
